@@ -5,4 +5,6 @@ IDS=$(python3 -c "import json; print(' '.join(c['property_id'] for c in json.loa
 mkdir -p build/logs
 run() { VERIF_NPROC=${VERIF_NPROC:-6} ./check $1 --tier $TIER > build/logs/$1.$TIER.log 2>&1; echo "$1 rc=$? $(tail -1 build/logs/$1.$TIER.log)"; }
 export -f run; export TIER
-echo $IDS | tr ' ' '\n' | xargs -P 3 -I{} bash -c 'run {}'
+# the schedule-level properties share one cached exploration: run one of them first, then the rest two at a time
+run C10
+echo $IDS | tr ' ' '\n' | grep -v '^C10$' | xargs -P 2 -I{} bash -c 'run {}'
